@@ -164,6 +164,9 @@ def run(chk):
             chk.ob('R04.1', f'{lab}: span of the starting vectors is invariant under {cname} (rank[Y | A Y - Y\'] = rank Y)', ok, detail, where,
                    key=f'R04.1|{fname}', method=f'exact rank over GF(p^2) at {len(d.points)} points')
             chk.note_analysed('functions', lab)
+    # ---- R04.7 independence of the family: for the same layer kind and assumptions the Kamata and the Takeuchi-Saito starting vectors span the same space at
+    #      every radius (both are the regular solutions), so the combined, boundary-matched solution does not depend on the family
+    family_spans(chk, repo, lsym, G)
     # ---- R04.5 sibling implementation (interpreted solver package)
     from . import legacy_solver
     legacy_solver.starting(chk, repo, 'R04.5', chk.seed, K_pts)
@@ -171,7 +174,7 @@ def run(chk):
     legacy_solver.initial_dispatch(chk, repo, X.Decider(seed=chk.seed, k=2), 'R04.5')
     series_tables(chk, repo)
     driver(chk, repo)
-    chk.floor('R04.5', 10); chk.floor('R04.6', 6); chk.floor('R04.1', 18); chk.floor('R04.2', 15); chk.floor('R04.3', 18); chk.floor('R04.4', 12)
+    chk.floor('R04.7', 3); chk.floor('R04.5', 10); chk.floor('R04.6', 6); chk.floor('R04.1', 18); chk.floor('R04.2', 15); chk.floor('R04.3', 18); chk.floor('R04.4', 12)
     chk.assume('homogeneous sphere: g(r) = (4 pi G rho / 3) r; all material values positive, shear modulus complex')
 
 
@@ -307,3 +310,62 @@ def driver(chk, repo):
                     same = sorted(ref.store) == sorted(out.store) and all(d.equal(out.store[k], ref.store[k]) for k in ref.store)
                     chk.ob('R04.4', inst + f': result == {fname}(named arguments in the callee\'s order)', same,
                            'starting block differs from the direct call with correctly bound arguments (wrong callee or swapped arguments)', md.where(fd), key=f'R04.4|{inst}', method='partial evaluation + GF(p^2) PIT')
+
+
+# ------------------------------------------------------------------------------------------------ R04.7
+def z_as_phi(n):
+    """z_l(u) = u phi_(l+1)(u) / ((2l+3) phi_l(u))  [z = x j_(l+1)/j_l, phi_l = (2l+1)!! j_l / x^l, u = x^2]: rewrite the Kamata function atom over the Takeuchi ones"""
+    memo = {}
+
+    def s_(x):
+        if x.uid in memo: return memo[x.uid]
+        if x.op == 'fn' and x.val == 'zfun':
+            u = s_(x.args[0]); l = s_(x.args[1])
+            r = u * X.fn('phi1', u, l) / ((2 * l + 3) * X.fn('phi0', u, l))
+        elif not x.args:
+            r = x
+        else:
+            r = X._mk(x.op, tuple(s_(a) for a in x.args), x.val)
+        memo[x.uid] = r
+        return r
+    return s_(n)
+
+
+def family_spans(chk, repo, lsym, G):
+    install_rules(lsym)
+    atoms = {'w': X.atom('w', 'pos'), 'r': X.atom('r', 'pos'), 'rho': X.atom('rho', 'pos'), 'K': X.atom('K', 'pos'), 'mu': X.atom('mu', 'complex'), 'l': lsym, 'G': G}
+    by = {}
+    for rec in FUNCS:
+        (fname, file_, kind, static, incomp, nsol, plist) = rec
+        if file_ in ('kamata', 'takeuchi'):
+            by.setdefault((kind, static, incomp), {})[file_] = rec
+    for key, fam in sorted(by.items()):
+        if len(fam) != 2:
+            continue
+        mats = {}
+        for file_, (fname, _f, kind, static, incomp, nsol, plist) in fam.items():
+            m = repo.by_path(f'TidalPy/RadialSolver/starting/{file_}.pyx')
+            it = make_interp(repo); out = Arr('start')
+            it.call(m, need_func(m, fname), [atoms[p] for p in plist] + [6, out])
+            nys = len(ts72.LAYOUT[(kind, static)])
+            try:
+                mats[file_] = ([[z_as_phi(out.store[s_ * 6 + i]) for s_ in range(nsol)] for i in range(nys)], fname, m, nsol, nys)
+            except KeyError as ex:
+                raise AnalysisError(f'{fname}: slot {ex} never written')
+        (YK, fK, mK, nsol, nys), (YT, fT, mT, _n, _m) = mats['kamata'], mats['takeuchi']
+        ranks = []
+        for seed in range(40):
+            if len(ranks) >= 2: break
+            pt = X.Decider(seed=1000 + seed, k=1).points[0]
+            try:
+                M = [[pt.ev(YK[i][s_]) for s_ in range(nsol)] + [pt.ev(YT[i][s_]) for s_ in range(nsol)] for i in range(nys)]
+            except X.Resample:
+                continue
+            ranks.append((X.rank_gf([row[:nsol] for row in M]), X.rank_gf([row[nsol:] for row in M]), X.rank_gf(M)))
+        if len(ranks) < 2:
+            raise AnalysisError(f'{fK} / {fT}: no sample point could evaluate both families')
+        ok = all(rk == (nsol, nsol, nsol) for rk in ranks)
+        lab = f'{key[0]}, {"static" if key[1] else "dynamic"}, {"incompressible" if key[2] else "compressible"}'
+        chk.ob('R04.7', f'{lab}: {fK} and {fT} span the same {nsol}-dimensional space of regular solutions at every radius (rank[Y_Kamata | Y_Takeuchi] = {nsol})', ok,
+               f'(rank Kamata, rank Takeuchi, rank of both) = {ranks[0]}: the two families do not describe the same solutions, so the Love numbers depend on the family', mT.where(need_func(mT, fT)),
+               key=f'R04.7|{fT}', method='exact rank over GF(p^2), Bessel-ratio atom rewritten over the Takeuchi functions')
